@@ -1,27 +1,93 @@
 """C04 - Var holds, copies, assigns and compares JSON-like values faithfully (spec/VarHeap.tla)."""
+import concurrent.futures as cf
 import os
 import subprocess
+import time
 import vlib
 
 META = {
-    "engine": "VarHeap.tla",
-    "technique": "TLC",
+    "engine": "VarHeap.tla, Trace_VarHeap.tla",
+    "technique": "TLC exhaustive enumeration of VarHeap.tla histories (typed and Var-to-Var assignment incl. own descendants, "
+                 "construction from containers, operator[] auto-creation, <<, resize, clear, remove, extend, clone on shared "
+                 "container nodes) replayed transition-by-transition on real asl::Var values under ASan+LSan with the canonical "
+                 "tree, sharing, reference counts, accessors, conversions and the == matrix compared; recorded random executions "
+                 "(depth 5, growth past the capacity steps) validated against the same spec actions",
     "design_ref": "DESIGN.md section 6, C04",
-    "level_text": "",
-    "level_note": "",
+    "level_text": "TLC enumerates every history of public Var calls over the root variables and all slots reachable by paths up to the "
+                  "configured bounds on VarHeap.tla (a heap of reference-counted array/object nodes; scalars NONE, NUL, BOOL, INT, "
+                  "NUMBER, FLOAT, strings on both sides of the 7/8-byte inline boundary) and checks the specification's own "
+                  "invariants (count = number of referencing slots, no reference to a released node, acyclic, keys ordered) and action "
+                  "properties (after a = b the target has the source's previous value, also when b is a descendant of a; a clone "
+                  "shares nothing; calls through one root leave unrelated roots unchanged). Every transition is replayed on real "
+                  "Var objects under ASan/LSan and every value of every root's tree is compared: type(), is(), length(), int/Long/"
+                  "float/double/bool/String conversions, toString(), ==/!= with literals, keys, has(), storage identity and "
+                  "reference counts of shared containers, and the pairwise ==/!= matrix. Recorded executions of the real Var are "
+                  "accepted by TLC as behaviours of the same actions.",
+    "level_note": "Bounded (constants in spec/MC_VarHeap_*.cfg); beyond them only the recorded random executions apply. Numbers are "
+                  "integers and halves (exactly representable); NaN, %g formatting of other doubles and numeric text parsing are not "
+                  "modelled. NONE == NONE is false in the implementation (an array with unset elements is not == to its own clone); "
+                  "the property speaks of values built from numbers, booleans, strings, arrays and objects, so comparisons that hinge "
+                  "on a NONE/NONE pair are left unspecified ('u') and not compared. Calls that would make a container contain itself "
+                  "(incl. x << x on an unset Var) and extend() with a non-object argument are outside the property and not generated. "
+                  "Open finding GrowWhileShared is excluded by a hazard predicate evaluated on the real rc()/cap(). Use-after-free, "
+                  "double destruction and leaks are observed by ASan/LSan on the generated executions, not decided by the model.",
 }
+
+
+def _model_and_replay(ctx, rep, cfg, label, workers, jobs):
+    cases = os.path.join(ctx.tmp, "%s.cases" % cfg)
+    ctx.model("VarHeap", cfg, emit_to=cases, timeout=ctx.pick(900, 3400), xmx="8g", workers=workers)
+    m = ctx.replay(rep, cases, label=label, timeout=ctx.pick(900, 5400), jobs=jobs, args=["--batch", "1000"])
+    os.unlink(cases)
+    return m
 
 
 def run(ctx):
     lib = vlib.build_lib("asan")
     rep = vlib.build_harness(lib, "c04_replay", ["c04_replay.cpp"])
-    cases = os.path.join(ctx.tmp, "c04.cases")
-    ctx.model("VarHeap", "MC_VarHeap_quick", emit_to=cases, timeout=900, xmx="6g", workers=6)
-    ctx.replay(rep, cases, label="R/VarHeap", timeout=900, jobs=12, args=["--batch", "300"])
+    rec = vlib.build_harness(lib, "c04_record", ["c04_record.cpp"])
+    tier = "quick" if ctx.quick else "thorough"
+    ncpu = vlib.NCPU
+    groups = [
+        [("MC_VarHeap_%s" % tier, "R/VarHeap", max(2, ncpu // 2), ncpu)],
+        [("MC_VarHeap_scalars_%s" % tier, "R/VarHeap-scalars", max(2, ncpu // 5), max(2, ncpu // 4))],
+    ]
+    if not ctx.quick:
+        groups[1].append(("MC_VarHeap_deep1_thorough", "R/VarHeap-deep1", max(2, ncpu // 4), max(2, ncpu // 2)))
+        groups.append([("MC_VarHeap_deep_thorough", "R/VarHeap-deep", max(2, ncpu // 3), max(2, ncpu // 2))])
+
+    def group(g):
+        for cfg, label, wk, jb in g:
+            _model_and_replay(ctx, rep, cfg, label, wk, jb)
+
+    def traces():
+        files = ctx.record(rec, ctx.pick(8, 32), ctx.pick(5000, 20000), "V/VarHeap")
+        ctx.validate_traces("Trace_VarHeap", "Trace_VarHeap", files, label="V/VarHeap", timeout=ctx.pick(600, 3000),
+                            parallel=max(2, ncpu // 2))
+
+    with cf.ThreadPoolExecutor(6) as ex:
+        futs = []
+        for g in groups:
+            futs.append(ex.submit(group, g))
+            time.sleep(0.7)     # vlib's TLC run counter is not thread-safe: stagger the starts
+        futs.append(ex.submit(traces))
+        for f in futs:
+            f.result()
+    ctx.exhaustive = True
+    ctx.rule = ("one case per transition of the VarHeap state graph (history of public Var calls + expected tree of every root with the "
+                "accessor results + == matrix); non-trivial = history with >= 2 calls; distinct = distinct case lines (hash)")
+    ctx.assumptions += [
+        "exhaustive within the constants of spec/MC_VarHeap_*_%s.cfg; beyond them only the recorded random executions apply" % tier,
+        "memory errors/leaks are observed by ASan/LSan on the replayed and recorded executions, not decided by the model",
+        "numbers are integers and halves; strings: \"\", \"abcdefg\" (7 bytes, inline), \"abcdefgh\" (8 bytes, heap), \"12\", \"1.5xyzuvw\"",
+        "comparisons whose result hinges on NONE == NONE are not compared (the implementation answers false)",
+    ]
 
 
 def replay(path):
     lib = vlib.build_lib("asan")
+    if os.path.basename(path).startswith("rec-") or path.endswith(".ndjson"):
+        return vlib.replay_recorded(path, lib, "c04_record", ["c04_record.cpp"], "Trace_VarHeap", "Trace_VarHeap")
     rep = vlib.build_harness(lib, "c04_replay", ["c04_replay.cpp"])
     r = subprocess.run([rep, "--single", path], env=vlib.run_env())
     return 1 if r.returncode == 1 else (0 if r.returncode == 0 else 2)
